@@ -35,9 +35,10 @@ theorem no_shared_target_store_on_request_path :
     serveStoresThroughTarget = [] := by decide
 
 /-- The self-redirect skip compares scheme, host and path; the request's scheme comes from
-`requestScheme`: the `X-Forwarded-Proto` header, else the connection (D18 repaired). -/
+`requestScheme`: the `X-Forwarded-Proto` header, else the connection (D18 repaired); a skipped target is
+dropped (`target = nil`) before the loop continues (D18c repaired). -/
 theorem self_redirect_comparison_pinned :
-    lookupSelfRedirectContinues = true ∧
+    lookupSelfRedirectContinues = true ∧ lookupSkipClearsTarget = true ∧
     lookupSelfRedirectComparisons = ["target.RedirectURL.Host == req.Host", "target.RedirectURL.Path == req.URL.Path",
       "target.RedirectURL.Scheme == requestScheme(req)"] ∧
     requestSchemeLits = ["X-Forwarded-Proto", "", "https", "http"] ∧ requestSchemeReadsTLS = true := by decide
